@@ -70,7 +70,9 @@ func c01R7(h H) {
 		{"host", func(l [3]string, cv int) []atom { return host3(l, 1) }, nil},
 		{"HOST:8080", func(l [3]string, cv int) []atom { return append(host3(l, 2), atom{lit: ":8080"}) }, nil},
 		{"host:8080/x", func(l [3]string, cv int) []atom { return append(host3(l, 1), atom{lit: ":8080/"}, x) }, []string{"x"}},
-		{"http://Host:8080", func(l [3]string, cv int) []atom { return append([]atom{{lit: "http://"}}, append(host3(l, 3), atom{lit: ":8080"})...) }, nil},
+		{"http://Host:8080", func(l [3]string, cv int) []atom {
+			return append([]atom{{lit: "http://"}}, append(host3(l, 3), atom{lit: ":8080"})...)
+		}, nil},
 	}
 	names := [][3]string{{"A", "B", "C"}, {"D", "E", "F"}}
 	type siteSpec struct {
